@@ -929,8 +929,15 @@ def run_c06(ctx, rng, job):
             w.subscribe(ri, req, rng.choice([prov, None]), w.newval())
     kinds = []
 
-    def check(tag):
-        for ri, reg in enumerate(w.regs):
+    def check(tag, only=None):
+        # members are probed in a seeded order, sometimes only one of them: probing an
+        # intermediate registry first can repair (and so mask) staleness further down
+        order = list(range(len(w.regs)))
+        rng.shuffle(order)
+        if only is not None:
+            order = [only]
+        for ri in order:
+            reg = w.regs[ri]
             chain = w.chain(ri)
             ro_attr = getattr(reg, 'ro', None)
             if w.flavour == 'verifying':
@@ -1000,6 +1007,9 @@ def run_c06(ctx, rng, job):
                 if any(len(after[k]) >= 3 and i in after[k][2:] for k in below):
                     ctx.count('rebasings_2plus_levels_above_a_descendant')
             tag = 'rebase %d -> %s' % (i, idx)
+            if below and rng.random() < 0.6:
+                # straight to a registry below the re-based one, nothing else asked in between
+                check(tag, only=rng.choice(below))
         elif r < 0.8:
             ri = rng.randrange(n)
             req, prov, name = w.rand_key(ar=rng.choice([0, 1, 1, 2]))
